@@ -10,16 +10,23 @@
 (***************************************************************************)
 EXTENDS Integers
 
-CONSTANT
+CONSTANTS
   \* @type: Int;
-  MQ
+  MQ,
+  \* @type: Int;
+  F,
+  \* @type: Int;
+  Q
 
 B == 18446744073709551616
 T255 == 57896044618658097711785492504343953926634992332820282019728792003956564819968
-Q == T255 - MQ
-C19 == MQ = 19
-C18651 == MQ = 18651
-C3957 == MQ = 3957
+\* GF255<MQ>: q = 2^255 - MQ, folding rule 2^256 = 2*MQ
+C19 == MQ = 19 /\ F = 38 /\ Q = T255 - 19
+C18651 == MQ = 18651 /\ F = 37302 /\ Q = T255 - 18651
+C3957 == MQ = 3957 /\ F = 7914 /\ Q = T255 - 3957
+\* GFsecp256k1 (gfsecp256k1.rs set_add / set_sub have the same three steps): q = 2^256 - (2^32 + 977), 2^256 = 2^32 + 977.
+\* (MQ is unused; NegOk does not apply to this type.)
+CK1 == MQ = 0 /\ F = 4294968273 /\ Q = 2 * T255 - 4294968273
 
 VARIABLES
   \* @type: Int;
@@ -55,11 +62,11 @@ AddOk ==
       s1 == a1 + b1 + c0       c1 == s1 \div B   d1 == s1 % B
       s2 == a2 + b2 + c1       c2 == s2 \div B   d2 == s2 % B
       s3 == a3 + b3 + c2       c3 == s3 \div B   d3 == s3 % B
-      f0 == d0 + c3 * 2 * MQ   e0 == f0 \div B   g0 == f0 % B
+      f0 == d0 + c3 * F   e0 == f0 \div B   g0 == f0 % B
       f1 == d1 + e0            e1 == f1 \div B   g1 == f1 % B
       f2 == d2 + e1            e2 == f2 \div B   g2 == f2 % B
       f3 == d3 + e2            e3 == f3 \div B   g3 == f3 % B
-      h0 == (g0 + e3 * 2 * MQ) % B
+      h0 == (g0 + e3 * F) % B
   IN (Val(h0, g1, g2, g3) - (A + Bv)) % Q = 0
 \* set_sub: subtract with borrow; on an output borrow subtract 2*MQ; on a second borrow subtract 2*MQ from the low limb only
 SubOk ==
@@ -67,11 +74,11 @@ SubOk ==
       s1 == a1 - b1 - c0       c1 == Bw(s1)   d1 == s1 % B
       s2 == a2 - b2 - c1       c2 == Bw(s2)   d2 == s2 % B
       s3 == a3 - b3 - c2       c3 == Bw(s3)   d3 == s3 % B
-      f0 == d0 - c3 * 2 * MQ   e0 == Bw(f0)   g0 == f0 % B
+      f0 == d0 - c3 * F   e0 == Bw(f0)   g0 == f0 % B
       f1 == d1 - e0            e1 == Bw(f1)   g1 == f1 % B
       f2 == d2 - e1            e2 == Bw(f2)   g2 == f2 % B
       f3 == d3 - e2            e3 == Bw(f3)   g3 == f3 % B
-      h0 == (g0 - e3 * 2 * MQ) % B
+      h0 == (g0 - e3 * F) % B
   IN (Val(h0, g1, g2, g3) - (A - Bv)) % Q = 0
 \* set_neg: 2q - a = (2^256 - 2*MQ) - a; if that is negative add q back
 NegOk ==
@@ -90,10 +97,10 @@ SubWrongFoldSign ==
       s1 == a1 - b1 - c0       c1 == Bw(s1)   d1 == s1 % B
       s2 == a2 - b2 - c1       c2 == Bw(s2)   d2 == s2 % B
       s3 == a3 - b3 - c2       c3 == Bw(s3)   d3 == s3 % B
-      f0 == d0 - c3 * 2 * MQ   e0 == Bw(f0)   g0 == f0 % B
+      f0 == d0 - c3 * F   e0 == Bw(f0)   g0 == f0 % B
       f1 == d1 - e0            e1 == Bw(f1)   g1 == f1 % B
       f2 == d2 - e1            e2 == Bw(f2)   g2 == f2 % B
       f3 == d3 - e2            e3 == Bw(f3)   g3 == f3 % B
-      h0 == (g0 + e3 * 2 * MQ) % B
+      h0 == (g0 + e3 * F) % B
   IN (Val(h0, g1, g2, g3) - (A - Bv)) % Q = 0
 =============================================================================
